@@ -550,3 +550,18 @@ Proof.
   split; [|vm_compute; reflexivity].
   unfold holds_at; vm_compute. intro H; apply H; reflexivity.
 Qed.
+
+(* the scan model's starvation trigger (Scan.scale_on_starve) is starve_cond behind the feature switch and the max-nodes test *)
+From Esc Require Scan.
+Lemma scan_starve_is_starve_cond o maxn u k untainted :
+  Scan.scale_on_starve o maxn u k untainted = Scan.o_starve o && starve_cond u k && (zlen untainted <? maxn).
+Proof. reflexivity. Qed.
+
+Lemma scan_starve_perm o maxn pods pods' nodes nodes' :
+  Permutation pods pods' -> Permutation nodes nodes' ->
+  Scan.scale_on_starve o maxn (pods_usage pods) (nodes_capacity nodes pods) nodes
+  = Scan.scale_on_starve o maxn (pods_usage pods') (nodes_capacity nodes' pods') nodes'.
+Proof.
+  intros Hp Hn. rewrite !scan_starve_is_starve_cond.
+  destruct (percent_perm _ _ _ _ Hp Hn) as [_ H]. cbv zeta in H. rewrite H, (perm_zlen _ _ Hn). reflexivity.
+Qed.
